@@ -18,7 +18,8 @@ other:
   * `parseFramesConst` - the same on a connection over which no descriptors arrive (`_receivedFDs`
     is the same list for every delivery - `[]` on a transport that is not a UNIX socket);
   * `receive` - `run` of the framing model over the reads, then `parseFramesConst` over the delivered
-    frames: what the four `...Received` hooks are handed, or the exception `parseMessage` raised.
+    frames: what `parseMessage` returns for each (all-frames-parse case only; see `recvRun` at the end of the
+    file for the dispatch to the four hooks, the descriptor list and what happens when a frame does not parse).
 
 `Sent` / `Sent.expected` are the SPEC side of the composition (from the property text: "exactly the
 sequence of complete messages ... with identical content"): a message that was sent, and the observable
@@ -38,7 +39,10 @@ def parseFramesConst {β : Type} (T : Msg.Tables) (C : Msg.BodyCodec β) (frames
   frames.map fun raw => Msg.parseMessage T C raw fds
 
 /-- The receiver: the framing model over the reads, then `parseMessage` on every delivered frame.
--> final framing state, the effects in order, the parsed messages (or the exception) in order. -/
+-> final framing state, the effects in order, the parsed messages (or the exception) in order.
+CAUTION (review 3): faithful only while every frame parses.  The code parses INSIDE the delivery loop: behind the
+first frame that raises nothing more is delivered - `recvRun` below models that (and the dispatch and the descriptor
+list); `receive` keeps parsing the frames the framing model delivered.  Little-endian / big-endian alike. -/
 def receive {α β : Type} (T : Msg.Tables) (C : Msg.BodyCodec β) (A : Auth α) (s : St α) (reads : List Bytes)
     (fds : Option (List PyVal)) : St α × List Effect × List (Except PyErr (Msg.Msg β)) :=
   let r := run A s reads
@@ -256,5 +260,10 @@ def handedOf {β : Type} (T : Msg.Tables) (p : Option Hook × Msg.Msg β) : Hand
 bits, the raw parts of the constructed message. -/
 def Sent.handed {β : Type} (T : Msg.Tables) (x : Sent β) : Handed β :=
   ⟨some (Hook.ofClass x.msg.cls), x.expected T, 0, x.msg.rawHeader, x.msg.rawPadding, x.msg.rawBody⟩
+
+/-- What the hook must be handed for a constructor call, stated from the arguments: the hook of the constructor
+that was called, `expectedView`, no other flag bits, the raw parts of the message that was put on the wire. -/
+def SentCall.handed {β : Type} (y : SentCall β) : Handed β :=
+  ⟨some (callHook y.call), y.expectedView, 0, y.sent.msg.rawHeader, y.sent.msg.rawPadding, y.sent.msg.rawBody⟩
 
 end Txdbus.Proto
